@@ -47,7 +47,44 @@ let cmd_tags () =
       done
     | _ -> print_endline "BADCASE")
 
+(* ---- bodystruct: "<tree>|<labels>" -> candidate paths joined by ';' (ROOT for the empty path), NONE ---- *)
+let parse_tree (s : string) : M.tree =
+  let pos = ref 0 in
+  let len = String.length s in
+  let num () =
+    let st = !pos in
+    while !pos < len && s.[!pos] >= '0' && s.[!pos] <= '9' do incr pos done;
+    n_of_int (int_of_string (String.sub s st (!pos - st))) in
+  let rec tree () =
+    match s.[!pos] with
+    | 'L' -> incr pos; M.Leaf (num ())
+    | 'M' ->
+      incr pos; let l = num () in
+      incr pos; (* '(' *)
+      let cs = ref [] in
+      while s.[!pos] <> ')' do
+        if s.[!pos] = ' ' then incr pos;
+        cs := tree () :: !cs
+      done;
+      incr pos; M.Multi (l, List.rev !cs)
+    | _ -> failwith "tree" in
+  tree ()
+
+let cmd_bodystruct () =
+  iter_lines (fun line ->
+    match String.split_on_char '|' line with
+    | [t; ls] ->
+      let tree = parse_tree t in
+      let labels = if ls = "" then [] else List.map int_of_string (String.split_on_char ',' ls) in
+      let pred n = List.mem (int_of_n (M.label n)) labels in
+      let cands = M.candidates pred tree in
+      if cands = [] then print_endline "NONE" else
+      print_endline (String.concat ";" (List.map (fun p ->
+        if p = [] then "ROOT" else String.concat "." (List.map (fun k -> string_of_int (int_of_n k)) p)) cands))
+    | _ -> print_endline "BADCASE")
+
 let () =
   match Sys.argv.(1) with
+  | "bodystruct" -> cmd_bodystruct ()
   | "tags" -> cmd_tags ()
   | c -> prerr_endline ("unknown sub-command " ^ c); exit 2
